@@ -7,8 +7,7 @@ import (
 // GetWAL returns the storage manager's WAL instance
 // This is used by the replication manager to access the WAL
 func (m *Manager) GetWAL() *wal.WAL {
-	m.mu.RLock()
-	defer m.mu.RUnlock()
-
-	return m.wal
+	// The log is replaced by an atomic store (rotateWAL runs without the
+	// manager lock when a flush rotates the log): read it the same way
+	return m.getWAL()
 }
